@@ -4599,7 +4599,7 @@ Case_BaseLdurStur:
             goto EmitOp_Rd0_Rn5;
 
           case 1:
-            if (!check_signature(o0, o3))
+            if (!check_signature(o0, o3) || !check_signature(o1, o2) || !check_consecutive(o1, o2))
               goto InvalidInstruction;
 
             if (o3.id() > 31)
@@ -4609,7 +4609,7 @@ Case_BaseLdurStur:
             goto EmitOp_Rd0_Rn5;
 
           case 2:
-            if (!check_signature(o0, o4))
+            if (!check_signature(o0, o4) || !check_signature(o1, o2, o3) || !check_consecutive(o1, o2, o3))
               goto InvalidInstruction;
 
             if (o4.id() > 31)
@@ -4619,7 +4619,7 @@ Case_BaseLdurStur:
             goto EmitOp_Rd0_Rn5;
 
           case 3:
-            if (!check_signature(o0, o5))
+            if (!check_signature(o0, o5) || !check_signature(o1, o2, o3, o4) || !check_consecutive(o1, o2, o3, o4))
               goto InvalidInstruction;
 
             if (o5.id() > 31)
